@@ -4,6 +4,7 @@ package main
 
 import (
 	"fmt"
+	"math"
 	"math/rand"
 	"reflect"
 	"runtime"
@@ -57,6 +58,9 @@ func ecValInt(s string) int {
 func ecDur(d int) time.Duration {
 	if d == -1 {
 		return cache.NoExpiration
+	}
+	if d == 2000000000 { // "for ever" spelled as the largest duration: the deadline does not fit an int64
+		return time.Duration(math.MaxInt64)
 	}
 	return time.Duration(d) * ecUnit // other negative durations are negative durations: no expiry either
 }
@@ -183,6 +187,9 @@ func ecOps(step int, full bool) []tt.Op {
 			r = append(r, op("set", k, v, d))
 		}
 		r = append(r, op("update", k, v, 0), op("update", k, v, 2), op("delete", k))
+		if k < 2 { // the SAME value again with another lifetime: the new lifetime counts
+			r = append(r, op("update", k, 7, 10), op("update", k, 7, 2))
+		}
 	}
 	r = append(r, op("set", 0, 0, 0), op("set", 1, 0, 2), op("update", 0, 0, 0),
 		op("flush"), op("delexp"),
